@@ -70,12 +70,12 @@ Proof.
       * (* value *)
         replace (x + B * val r) with (x + (q * val r) * p) by (rewrite HB; ring).
         rewrite Z.div_add by lia. rewrite Hv, Ht, HB. nia.
-      * constructor; [|exact Hw']. unfold isword. rewrite HB at 2. nia.
+      * constructor; [|exact Hw']. unfold isword. split; [lia|]. rewrite HB. nia.
       * lia.
       * (* new tmp: the dropped bits of the lowest word *)
         replace (x + B * val r) with (x + (q * val r) * p) by (rewrite HB; ring).
         rewrite Z_mod_plus_full.
-        rewrite HB, (Z.mul_comm p q). rewrite Z.mul_mod_distr_r by lia. reflexivity.
+        rewrite HB. rewrite Z.mul_mod_distr_r by lia. reflexivity.
 Qed.
 
 (** * is any dropped bit set? *)
@@ -225,3 +225,76 @@ Proof.
         rewrite Z_div_nz_opp_full; [rewrite HmD; lia|]. rewrite HmodD. intros Z0. apply E. apply Hst.
         assert (vlo = 0 /\ vK mod p = 0) as [A C] by nia. split; [apply Htz; exact C|exact A].
 Qed.
+
+(** * log2i and the fixnum branch *)
+Lemma log2i_loop_spec fuel : forall i v, 0 <= i ->
+  i <= log2i_loop fuel i v <= i + Z.of_nat fuel /\
+  (log2i_loop fuel i v < i + Z.of_nat fuel -> v < 2 ^ (log2i_loop fuel i v + 1)).
+Proof.
+  induction fuel as [|f IH]; intros i v Hi; cbn [log2i_loop].
+  - split; lia.
+  - destruct (Z.gtb_spec (2 ^ (i + 1)) v) as [Hgt|Hle].
+    + split; [lia|]. intros _. lia.
+    + destruct (IH (i + 1) v ltac:(lia)) as (A & C). split; [lia|]. intros H. apply C. lia.
+Qed.
+
+Lemma FIXMAX_eq : FIXMAX = 2 ^ 62 - 1.  Proof. reflexivity. Qed.
+
+Lemma shift_fix_small z c : - FIXMAX - 1 <= z <= FIXMAX -> 0 < c -> log2i (z mod B) + c + 1 <? 63 = true ->
+  ((z mod B) * 2 ^ c) mod B * (if z <? 0 then -1 else 1) = z * 2 ^ c.
+Proof.
+  intros Hz Hc Hl. apply Z.ltb_lt in Hl. unfold log2i in Hl.
+  destruct (log2i_loop_spec 64 0 (z mod B) ltac:(lia)) as (Hr & Hb).
+  set (r := log2i_loop 64 0 (z mod B)) in *.
+  specialize (Hb ltac:(lia)). pose proof FIX_lt_B as HF. pose proof FIXMAX_eq as HE.
+  assert (0 <= z) as Hz0.
+  { destruct (Z.ltb_spec z 0) as [Hneg|]; [|lia]. exfalso.
+    assert (z mod B = z + B) as E by (symmetry; apply Z.mod_unique with (q := -1); lia).
+    rewrite E in Hb.
+    assert (2 ^ (r + 1) <= 2 ^ 62) as Hle by (apply Z.pow_le_mono_r; lia).
+    assert (B = 2 ^ 62 * 4) as HB4 by (rewrite B_eq; reflexivity). lia. }
+  destruct (Z.ltb_spec z 0); [lia|]. rewrite Z.mul_1_r.
+  rewrite (Z.mod_small z B) in * by lia.
+  apply Z.mod_small. split; [apply Z.mul_nonneg_nonneg; [lia|apply Z.pow_nonneg; lia]|].
+  assert (z * 2 ^ c < 2 ^ (r + 1) * 2 ^ c) as H1.
+  { apply Z.mul_lt_mono_pos_r; [apply Z.pow_pos_nonneg; lia|exact Hb]. }
+  rewrite <- Z.pow_add_r in H1 by lia.
+  assert (2 ^ (r + 1 + c) <= 2 ^ 62) as H2 by (apply Z.pow_le_mono_r; lia). lia.
+Qed.
+
+Theorem arithmetic_shift_ok x c : wf x ->
+  ival (arithmetic_shift x c) = if c <? 0 then ival x / 2 ^ (- c) else ival x * 2 ^ c.
+Proof.
+  intros Hwf. unfold arithmetic_shift. destruct (Z.eqb_spec c 0) as [->|Hc0].
+  - change (0 <? 0) with false. cbv iota. change (2 ^ 0) with 1. lia.
+  - destruct x as [z|s ws]; cbn [wf ival] in *.
+    + destruct (Z.ltb_spec c 0) as [Hneg|Hpos].
+      * cbn [ival]. destruct (Z.gtb_spec c (-64)) as [|Hbig]; [reflexivity|].
+        pose proof FIX_lt_B. assert (B <= 2 ^ (- c)) as HBc by (rewrite B_eq; apply Z.pow_le_mono_r; lia).
+        destruct (Z.ltb_spec z 0) as [Hz|Hz].
+        -- replace z with (- (- z)) at 2 by lia. symmetry. apply div_small_neg. lia.
+        -- symmetry. apply Z.div_small. lia.
+      * destruct (log2i (z mod B) + c + 1 <? 63) eqn:El.
+        -- cbn [ival]. apply shift_fix_small; [exact Hwf|lia|exact El].
+        -- assert (wfb (if z <? 0 then -1 else 1) [Z.abs z]) as Hb.
+           { pose proof FIX_lt_B. repeat split.
+             - destruct (z <? 0); auto.
+             - constructor; [unfold isword; lia|constructor].
+             - discriminate.
+             - destruct (Z.ltb_spec z 0); [intros _; cbn [val]; lia|discriminate]. }
+           rewrite shift_left_ok by (exact Hb || lia). f_equal. cbn [val].
+           destruct (Z.ltb_spec z 0); lia.
+    + destruct (Z.ltb_spec c 0); [apply shift_right_ok|apply shift_left_ok]; auto; lia.
+Qed.
+
+Corollary arithmetic_shift_shiftl x c : wf x -> ival (arithmetic_shift x c) = Z.shiftl (ival x) c.
+Proof.
+  intros H. rewrite arithmetic_shift_ok by exact H. destruct (Z.ltb_spec c 0).
+  - rewrite Z.shiftl_div_pow2 by lia. reflexivity.
+  - rewrite Z.shiftl_mul_pow2 by lia. reflexivity.
+Qed.
+
+Example arithmetic_shift_witness :
+  arithmetic_shift (Big (-1) [0; 1]) (-64) = Fix (-1) /\ arithmetic_shift (Big (-1) [1; 1]) (-64) = Fix (-2)
+  /\ arithmetic_shift (Fix (-5)) (-64) = Fix (-1).
+Proof. vm_compute. auto. Qed.
